@@ -118,6 +118,17 @@ def concretise(beh, idx, rng, tag):
     steps.append({"op": "open", "c": "m3", "mode": "rw", "perm": rng.randrange(6), "fix": 3})
     steps.append({"op": "open", "c": "m4", "mode": "rw", "perm": rng.randrange(6), "fix": 4})
     steps.append({"op": "open", "c": "r7", "mode": "ro", "perm": rng.randrange(6)})
+    # stale descendants: the bucket now holds one merged version; every writer carries on from its OLD handle (no
+    # refresh) with a write to an unrelated key, so its new version descends from a version that is already merged;
+    # every fold order of {merged version, stale descendants} must give the same, Ideal, table
+    if len(writers) > 1:
+        for j, w in enumerate(writers[:3]):
+            nst += 1
+            steps.append({"op": "stmt", "c": w, "id": "s%d" % nst, "kind": "ins", "key": "i:%d" % (7700 + j), "cols": {"a": "t:late%d" % j}, "wt": 60 + j, "intx": 0})
+        for p in range(6):
+            steps.append({"op": "open", "c": "q%d" % p, "mode": "ro", "perm": p})
+        steps.append({"op": "open", "c": "m5", "mode": "rw", "perm": rng.randrange(6)})
+        steps.append({"op": "open", "c": "q6", "mode": "ro", "perm": rng.randrange(6)})
     for w in writers[:2]:
         steps.append({"op": "refresh", "c": w, "perm": rng.randrange(6)})
     steps.append({"op": "bucket"})
@@ -152,6 +163,44 @@ def rowapi_scenarios(workdir, tier, rng, tag="ra"):
         scen.append({"id": "%s-%d" % (tag, i), "kind": "rowapi", "features": ["rowapi"],
                      "cfg": {"cols": ["a", "b"], "epn": 0, "log_s3": 0}, "steps": steps})
     return scen, d, g, note
+
+
+def rowmerge_scenarios(workdir, tier, rng, tag="rm"):
+    """Statement sequences of 2-3 writers (TLC behaviours of S3db.tla without refreshes; only the statements and who
+    issues them are used): every writer works on its own handle opened on the empty bucket, then read-only handles
+    merge the writers' versions in every fold order. Registers are recorded for RowsMonitor.tla (strict conformance of
+    Rows!MergeEntry); Monitor.tla ignores these scenarios."""
+    scen, notes, states, trans = [], [], 0, 0
+    seen = set()
+    for name, clients, mt, ms in (("gen_rm2", ["w1", "w2"], 4, 4), ("gen_rm3", ["w1", "w2", "w3"], 3, 3)):
+        b, d, g, w = vf.gen_behaviours(workdir, "S3db", cfg_text(clients, ["k1"], mt, ms, 0, 1), name=name, timeout=1800)
+        notes.append("S3db %d writers, 1 key, %d times, %d stmts, no refresh, exhaustive: %d behaviours, %d distinct states, %.0fs" % (len(clients), mt, ms, len(b), d, w))
+        states += d
+        trans += g
+        cand = []
+        for beh in b:
+            sts = [st for st in beh if st["op"] == "stmt"]
+            if len({st["c"] for st in sts}) < 2:
+                continue
+            k = canon(sts)
+            if k in seen:
+                continue
+            seen.add(k)
+            cand.append(sts)
+        rng.shuffle(cand)
+        if tier == "quick":
+            cand = cand[:1500]
+        for sts in cand:
+            steps = []
+            for n, st in enumerate(sts):
+                steps.append({"op": "stmt", "c": st["c"], "id": "s%d" % (n + 1), "kind": st["kind"], "key": "i:1",
+                              "cols": {c: "t:%s%d" % (c, st["wt"]) for c in st["cs"]}, "wt": st["wt"]})
+            nw = len({st["c"] for st in sts})
+            for p in range(2 if nw == 2 else 6):
+                steps.append({"op": "merge", "c": "m%d" % p, "perm": p})
+            scen.append({"id": "%s-%d" % (tag, len(scen)), "kind": "rowmerge", "features": ["rowmerge"],
+                         "cfg": {"cols": ["a", "b"], "epn": 0, "log_s3": 0}, "steps": steps})
+    return scen, states, trans, notes
 
 
 def generate(workdir, tier, rng):
@@ -238,6 +287,28 @@ def run(prop, tier):
     vf.log("executed %d scenarios in %.1fs (crashes=%d hangs=%d)" % (len(scen), info["wall"], info["crashes"], info["hangs"]))
     viols, events, mstates, mwall = vf.run_monitor(workdir, trace, [prop])
     vf.log("monitor: %d events validated in %.1fs, %d raw violations" % (events, mwall, len(viols)))
+    strict = None
+    if prop == "C02":
+        rm, d2, g2, n2 = rowmerge_scenarios(workdir, tier, rng)
+        rtrace, rinfo = vf.run_harness(binary, rm, workdir, name="rowmerge")
+        notes += n2
+        vf.log("; ".join(n2) + "; %d writer/merge scenarios executed in %.1fs (crashes=%d)" % (len(rm), rinfo["wall"], rinfo["crashes"]))
+        msv, _, _, mswall = vf.run_monitor(workdir, rtrace, [prop], module="RowsMonitor", name="strictm")
+        mevs = vf.load_trace(rtrace)
+        # strict conformance of the register-level transcription (Rows.tla, mode "fixed") on the single-writer histories
+        # executed through the Go API: a statement about the specification's fidelity, never a verdict
+        sv, _, _, swall = vf.run_monitor(workdir, trace, [prop], module="RowsMonitor", name="strict")
+        evs0 = vf.load_trace(trace)
+        strict = {"model": "Rows!ApplyLocal, mode fixed (the code with repairs R1-R3)", "trace_validator": "spec/RowsMonitor.tla",
+                  "statements_replayed": sum(1 for e in evs0 if e.get("ev") == "stmt" and e.get("api") == 1),
+                  "register_dumps_compared": sum(1 for e in evs0 if e.get("ev") == "regs"),
+                  "mismatches": len(sv), "first_mismatches": sv[:2], "wall_s": round(swall + mswall, 1),
+                  "merge_scenarios": len(rm), "merges_compared": sum(1 for e in mevs if e.get("ev") == "mregs"),
+                  "merge_statements_replayed": sum(1 for e in mevs if e.get("ev") == "stmt"),
+                  "merge_mismatches": len(msv), "first_merge_mismatches": msv[:2],
+                  "note": "mismatches are reported here and never as violations: the properties speak about visible rows"}
+        vf.log("strict register conformance (RowsMonitor): %d statements, %d register dumps, %d mismatches; %d merges of 2-3 writers' versions in every fold order, %d mismatches"
+               % (strict["statements_replayed"], strict["register_dumps_compared"], len(sv), strict["merges_compared"], len(msv)))
     by_id = {s["id"]: s for s in scen}
     sigs = {json.dumps(s["steps"], sort_keys=True) for s in scen}
     nontrivial = sum(1 for s in scen if "multi_writer" in s["features"])
@@ -255,6 +326,8 @@ def run(prop, tier):
         "harness": info,
         "exhaustive": False,
     }
+    if strict:
+        coverage["strict_register_conformance"] = strict
     assumptions = [
         "fake object store with strong read-after-write and list-after-write consistency",
         "version order at every open imposed through the verif hook kv.VerifMergeRoots",
